@@ -16,6 +16,7 @@ faithful to that, and `C07_full_false` refutes the full statement with a three-s
 -/
 import HopModel.Proofs.Grants
 import HopModel.Generated.Consts
+import HopModel.Generated.Shapes
 namespace Grants
 
 /-- what an exec/shell request must match in a grant -/
@@ -206,5 +207,17 @@ example : Generated.common_UserAuthTube = tUserAuth := by decide
 example : Generated.common_PFControlTube = tPFControl := by decide
 example : Generated.common_PFTube = tPF := by decide
 example : Generated.common_WinSizeTube = tWinSize := by decide
+
+
+/-! ### the tie behind "calls are serialised": the grant map's operations are single critical sections
+
+The models treat `AddAuthGrant` and `RemoveAuthgrants` (look-up *and* removal) as atomic steps.
+That is a fact about authgrants/authgrants.go which the translator regenerates on every run as
+statement shapes; the race suite `C05race` observes the same thing on the running code. -/
+example : Shape.oneCriticalSection "m.agLock" Generated.shape_authgrants_AuthgrantMapSync_RemoveAuthgrants = true := by decide
+example : Shape.oneCriticalSection "m.agLock" Generated.shape_authgrants_AuthgrantMapSync_AddAuthGrant = true := by decide
+/-- the look-up and the removal are both inside it -/
+example : (Generated.shape_authgrants_AuthgrantMapSync_RemoveAuthgrants.filter
+    (fun it => it.text == "val, ok := ags[key]" || it.text == "delete(ags, key)")).length = 2 := by decide
 
 end Grants
